@@ -5,6 +5,7 @@ from lib.props.c08 import parse_view, reach
 LEVEL = "proof"
 MODEL_FILES = ["Model/View.v", "Model/ShortestM.v", "Model/AlgoIO.v"]
 THEOREMS = []
+EXTRA_PROPS = ["C11b"]
 STREAMS = [("C11", 2500, 100000)]
 SHARD = 5000
 RULE = ("sparse random weighted multigraphs on 1..8 nodes, costs -6..9, with unreachable parts, directed (70% of the "
